@@ -21,12 +21,31 @@ def build():
         _built[REPO] = (False, "%s is not a full crate (no Cargo.toml): replay unavailable" % REPO)
         return _built[REPO]
     os.makedirs(os.path.join(CRATE, "src"), exist_ok=True)
-    shutil.copy(os.path.join(SRC, "src", "main.rs"), os.path.join(CRATE, "src", "main.rs"))
+    # Build against a CONTENT-synchronised copy of the working tree (rsync -c, no mtime preservation): cargo's
+    # freshness check is mtime based, so a tree restored with older mtimes would otherwise leave a stale binary.
+    copy = os.path.join(VERIF, "build", "replay-repo")
+    os.makedirs(copy, exist_ok=True)
+    q = subprocess.run(["rsync", "-rlpc", "--delete", "--exclude", "target", "--exclude", ".git",
+                        REPO.rstrip("/") + "/", copy + "/"], capture_output=True, text=True)
+    if q.returncode != 0:
+        _built[REPO] = (False, "rsync failed: " + q.stderr[-500:])
+        return _built[REPO]
+    main_src = open(os.path.join(SRC, "src", "main.rs")).read()
+    main_dst = os.path.join(CRATE, "src", "main.rs")
+    if not os.path.exists(main_dst) or open(main_dst).read() != main_src:
+        with open(main_dst, "w") as f:
+            f.write(main_src)
     with open(os.path.join(SRC, "Cargo.toml")) as f:
-        toml = f.read().replace('path = "/repo"', 'path = "%s"' % REPO)
-    with open(os.path.join(CRATE, "Cargo.toml"), "w") as f:
-        f.write(toml)
-    shutil.copy(os.path.join(REPO, "Cargo.lock"), os.path.join(CRATE, "Cargo.lock"))
+        toml = f.read().replace('path = "/repo"', 'path = "%s"' % copy)
+    ct = os.path.join(CRATE, "Cargo.toml")
+    if not os.path.exists(ct) or open(ct).read() != toml:
+        with open(ct, "w") as f:
+            f.write(toml)
+    lock_src = open(os.path.join(REPO, "Cargo.lock")).read()
+    lk = os.path.join(CRATE, "Cargo.lock")
+    if not os.path.exists(lk):
+        with open(lk, "w") as f:
+            f.write(lock_src)
     env = dict(os.environ, CARGO_NET_OFFLINE="true")
     p = subprocess.run(["cargo", "build", "--offline", "--manifest-path", os.path.join(CRATE, "Cargo.toml"),
                         "--target-dir", TARGET], capture_output=True, text=True, env=env)
